@@ -39,7 +39,7 @@ def run(cx):
         t = arg_origin(rs[0], 0, o)
         ob.require(mentions_field(t, "0") and mentions_param(t, "self"), "drop/resets-own-stream", f"reset called on {show(t)}", d.path)
         must_pass(ob, d, [rs[0].bb], key="drop/reset-on-all-paths", what="return")
-        check_constructed_only_in(ob, prog, f"{CONN}::SendStream", [f"{CONN}::Connection::open_uni", f"{CONN}::Connection::open_bi", f"{CONN}::Connection::accept_bi"], crates=A, floor=3)
+        check_constructed_only_in(ob, prog, f"{CONN}::SendStream", [f"{CONN}::Connection::open_uni", f"{CONN}::Connection::open_bi", f"{CONN}::Connection::accept_bi"], crates=A, floor=2)          # (open_uni + the bi-stream wrapping, which the two bi functions may share)
         # positions where a quinn SendStream leaves a quinn call: all inside connection.rs wrappers (C02.1) -- here: field .0 never moved out
         acc = [a for a in field_accesses(prog, f"{CONN}::SendStream", "0", crates=A) if a[2] == "move" and not a[0].is_cleanup(a[1])]
         for bb_, i, kind, _ in acc:
